@@ -5,8 +5,9 @@ Voices (one LISTING line each, same format):
          commands played through the real fn_step / fn_rewind / fn_print, their printed output parsed;
          a sample of the sessions is replayed on the real `btcdeb` binary under a pseudo-terminal and must agree;
   model: Driver/Listing.lean over Model/Listing.lean (buildListing, markedLine, echoLine, fnStep) — must equal impl;
-  spec : Spec/Listing.lean (execution-order decoding, pending operation) — where it differs from impl there is a defect:
-         each distinct kind is reported once (region id, reproducer on the real binary, proposed fix).
+  spec : Spec/Listing.lean (execution-order decoding, pending operation) — must equal impl, except in the regions of
+         FINDINGS (each distinct kind is reported once: region id, reproducer on the real binary, proposed fix).
+Histories contain failed steps (a failed step leaves the session where it was) and refused commands.
 """
 import hashlib
 import itertools
@@ -28,47 +29,20 @@ NOPUSH = R.STD & ~(1 << FB["SIGPUSHONLY"])
 P2SH_ONLY = 1
 
 # ---------------------------------------------------------------------------------------------------------------
-# findings: id -> (what, where, minimal fix)
+# findings: id -> (what, where, minimal fix).
+# Repaired (regression cases stay in the streams): tapscript commitment section one line too long (f9007a7), long pushes cut and
+# buf[1024] overrun (cbbeb82), failed step left the position advanced / stale history entry / script_lines[-1] (7dec9d9), empty
+# tapscript leaf born `done` (387b380), undecodable scriptSig accepted (a728b06), P2SH section empty for OP_1..OP_16 (6d80ca4).
 FINDINGS = {
-    "F-C12-tapscript-extra-line": (
-        "taproot script path: TaprootCommitmentEnv::Description() returns m+2 lines (m x 'Branch:', 'Tweak:', 'CheckTapTweak') but the "
-        "commitment phase takes m+1 steps (Iterate never returns State::Tweaked: that branch is commented out), so from the last "
-        "commitment step on the marked/echoed line is the one BEFORE the operation that executes next, and at the end the last "
-        "instruction stays marked although nothing is pending",
-        "debugger/interpreter.cpp:69-78 (Description) vs :36-67 (Iterate); btcdeb.cpp:303-307,330-334",
-        "drop the separate 'Tweak:' line: in Description() replace the two push_backs by one, e.g. "
-        "rv.push_back(strprintf(\"CheckTapTweak: %s\", m_p.ToString())); (one line per Iterate() call)"),
-    "F-C12-long-push-cut": (
-        "an instruction whose hex text is longer than 1029 characters (push of 515..520 bytes) is listed cut (odd number of hex "
-        "digits); the same snprintf writes up to 12 bytes beyond char buf[1024] for every push of 509 bytes and more "
-        "(stack-buffer-overflow, confirmed with AddressSanitizer at btcdeb.cpp:344)",
-        "btcdeb.cpp:329,341-347: snprintf(pbuf, 1024 + pbuf - buf, ...) — the size grows with the prefix instead of shrinking",
-        "build the line as a std::string: script_lines[i++] = strdup(strprintf(\"#%04d %s\", i, text).c_str()); (as the commitment "
-        "lines already are) — or at least snprintf(pbuf, sizeof(buf) - (pbuf - buf), ...) with a buffer of 2*520+16 bytes"),
-    "F-C12-step-after-failure": (
-        "after a step that FAILED the session can be continued: StepScript(env, pc) has advanced env.pc (passed by reference) past the "
-        "failing instruction, the failure path pops the history entries but does not restore pc, curr_op_seq is not incremented; the "
-        "next 'step' executes the instruction AFTER the one still marked, and the marker stays one line behind from then on",
-        "debugger/interpreter.cpp:153-164 (failure path of StepScript(InterpreterEnv&)); script/interpreter.cpp:441 (GetOp(pc, ...))",
-        "restore the position on failure: in the `if (!StepScript(env, pc))` block add `env.pc = env.pc_history.back();` before the "
-        "pop_back()s (and restore stack/altstack/vfExec/nOpCount the same way), so that a failed step leaves the session where it was"),
-    "F-C12-p2sh-announced-redeem": (
-        "legacy P2SH spend: the P2SH section of the listing decodes the push value of the LAST INSTRUCTION of the scriptSig "
-        "(empty when that instruction is OP_1..OP_16 / OP_1NEGATE), while the hand-over loads the item on top of the stack; "
-        "for a scriptSig ending in such an opcode the listed section is empty although a one-byte script is executed",
-        "btcdeb.cpp:294,314-317 (p2sh_script_payload) vs debugger/interpreter.cpp:199-204",
-        "derive the payload from what the instruction pushes: for OP_1NEGATE/OP_1..OP_16 use CScriptNum(opcode - (OP_1 - 1)).getvch()"),
-    "F-C12-undecodable-scriptsig": (
-        "legacy spend whose scriptSig ends in an instruction that does not decode (push running past the end): configure_tx_txin "
-        "installs the scriptSig without HasValidOps; the listing stops at the bad instruction, the marker designates the "
-        "'<<< scriptPubKey >>>' hand-over although the next step fails with BAD_OPCODE on the scriptSig",
-        "instance.cpp:626-628 (legacy branch: script = scriptSig, no parse_script)",
-        "refuse the session like every other script: `if (!script.HasValidOps()) { fprintf(stderr, \"invalid scriptSig\\n\"); return false; }`"),
-    "F-C12-tapscript-empty-leaf": (
-        "taproot script path with an EMPTY leaf script: the environment is born with done = true (pc == pend) although the "
-        "commitment has not been checked; 'step' answers 'at end of script' while line #0000 of the commitment section is marked",
-        "debugger/interpreter.cpp:85 (done(pc == pend)); instance.cpp:225 (done &= successor_script.size() == 0)",
-        "in setup_environment: `env->done = env->done && successor_script.size() == 0 && tce == nullptr;`"),
+    "F-C12-tapscript-p2sh-pattern-leaf": (
+        "taproot script path whose leaf script is OP_HASH160 <20 bytes> OP_EQUAL (a hash lock) with a witness item: InterpreterEnv sets "
+        "is_p2sh for every script of that shape whatever the signature version, and main() lists the commitment section only in the "
+        "else-branch of `if (env->is_p2sh && env->p2shstack.size() > 0)`: the listing has NO commitment lines although the m+1 "
+        "commitment steps are performed, so the marker runs m+1 lines ahead (and a '<<< P2SH script >>>' section is listed and, after "
+        "the hash lock, the preimage is executed as a script: BIP16 applied to a tapscript)",
+        "btcdeb.cpp:304-312 (else-if), debugger/interpreter.cpp:101-108 (is_p2sh regardless of sigversion)",
+        "compute is_p2sh only for sigversion == SigVersion::BASE (constructor and successor hand-over); independently, make the "
+        "commitment section unconditional: `if (env->sigversion == SigVersion::TAPSCRIPT && env->tce)` not chained with else"),
 }
 
 
@@ -264,14 +238,14 @@ def malformed_cases(ctx, rnd, quick):
         for cmds in cmdsets:
             cases.append((sline(tx, ftx, cmds, flags), {"kind": "malformed", "label": name}))
     p2sh = lambda r: bytes([0xa9, 20]) + P.hash160(r) + bytes([0x87])
-    # continuing after a failed step (plain scripts); the failing operations chosen leave the stacks untouched, which is
-    # all the model represents of a failed operation: OP_VERIFY on false, OP_RETURN, a disabled opcode, OP_RESERVED
+    # continuing after a failed step (plain scripts): OP_VERIFY on false, OP_RETURN, a disabled opcode, OP_RESERVED, and
+    # operations that fail after having popped / pushed (OP_EQUALVERIFY, OP_CHECKMULTISIG with a bad key count, OP_PICK)
     for sc in (bytes.fromhex("0069555657"), bytes.fromhex("516a5152"), bytes.fromhex("7e5152"), bytes.fromhex("5100695293"),
-               bytes.fromhex("515052")):
+               bytes.fromhex("515052"), bytes.fromhex("5152885354"), bytes.fromhex("51525aae55"), bytes.fromhex("515a7952")):
         for cmds in ("cssssss", "cssrsss", "csssrrss", "cssssrr", "ssssss"):
             cases.append((pline(sc, (), cmds, 0), {"kind": "malformed", "label": "step-after-failure"}))
-    # a failure raised as a C++ exception (script number overflow) additionally leaves its history entry behind:
-    # rewinding then drives curr_op_seq below zero and fn_rewind reads script_lines[-1]
+    # a failure raised as a C++ exception (script number overflow): once left its history entry behind, so that a
+    # rewind drove curr_op_seq below zero and fn_rewind read script_lines[-1]
     for cmds in ("cs", "css", "csss", "cssr", "cssrr", "csr"):
         cases.append((pline(bytes.fromhex("8b51"), (bytes.fromhex("0102030405"),), cmds, 0), {"kind": "malformed", "label": "rewind-after-exception"}))
     # scriptSig that does not decode completely; scriptPubKey / redeem script that does not
@@ -290,6 +264,13 @@ def malformed_cases(ctx, rnd, quick):
     for m in (0, 2):
         s = S.build(rnd, "p2tr-script", {"path_len": m, "leaf_script": b"", "leaf_args": [b"\x01"], "annex": False})
         cases.append((sline(s.tx, s.txin, "sss", R.STD), {"kind": "malformed", "label": "tapscript-empty-leaf"}))
+    # a tapscript leaf that is a hash lock of the shape OP_HASH160 <20> OP_EQUAL, with its preimage as witness item
+    for m in (0, 2):
+        pre = b"\x51"
+        s = S.build(rnd, "p2tr-script", {"path_len": m, "leaf_script": bytes([0xa9, 20]) + P.hash160(pre) + bytes([0x87]),
+                                         "leaf_args": [pre], "annex": False})
+        for cmds in ("sssssssss", "ssrsssssrss"):
+            cases.append((sline(s.tx, s.txin, cmds, R.STD), {"kind": "malformed", "label": "tapscript-p2sh-pattern-leaf"}))
     # a failing commitment (corrupted control block): nothing executes
     s = S.build(rnd, "p2tr-script", {"path_len": 2, "leaf_script": b"\x51", "leaf_args": [], "annex": False})
     tx = s.tx
@@ -306,101 +287,20 @@ def strip_no(x):
     return re.sub(r"^#\d+~", "", x)
 
 
-def cut1035(x):
-    # what btcdeb.cpp:344 keeps of a numbered line (numbers below 10000: prefix of 6, text cut at 1029)
-    return x[:1035] if x.startswith("#") and len(x) > 1035 else x
-
-
-LABEL_FINDING = {"p2sh-last-op-small-int": "F-C12-p2sh-announced-redeem", "p2sh-dup-scriptsig": "F-C12-p2sh-announced-redeem",
-                 "p2sh-nonpush-scriptsig": "F-C12-p2sh-announced-redeem",
-                 "undecodable-scriptsig": "F-C12-undecodable-scriptsig", "undecodable-scriptsig-pushdata": "F-C12-undecodable-scriptsig",
-                 "tapscript-empty-leaf": "F-C12-tapscript-empty-leaf", "rewind-after-exception": "F-C12-step-after-failure"}
-
-
 def explain(meta, im, mo, sp):
     """set of finding ids that account for EVERY difference between the implementation's and the specification's answer,
-    or None when some difference is not accounted for.  Decided from the answers themselves; the label of a hand-built
-    case only selects which of the special shapes is looked for."""
-    ids = set()
-    label = meta.get("label", "")
-    if im.startswith("CRASH") or im.startswith("DIED"):
-        # the process died: accounted for only when the model shows the marker index below zero (script_lines[-1] is read)
-        pm = parse(mo)
-        if pm and any(len(p) > 1 and int(p[1]) < 0 for p in pm[2]):
-            return {"F-C12-step-after-failure"}
-        return None
+    or None when some difference is not accounted for"""
     pi, ps = parse(im), parse(sp)
     if pi is None or ps is None:
         return None
     ci, li, ti = pi
     cs, ls, ts = ps
-    ti = [list(p) for p in ti]
-    ts = [list(p) for p in ts]
-    if any(len(p) < 7 for p in ti + ts):
-        return None
-    # 1. long texts: the implementation shows the first 1029 characters
-    if any(len(x) > 1035 for x in ls):
-        ls2 = [cut1035(x) for x in ls]
-        for p in ts:
-            p[5], p[6] = cut1035(p[5]), cut1035(p[6])
-        if ls2 != ls:
-            ids.add("F-C12-long-push-cut")
-        ls = ls2
-    # 2. taproot script path: one line too many in the commitment section
-    tw = [k for k, x in enumerate(li) if strip_no(x).startswith("Tweak:")]
-    if tw and not any(strip_no(x).startswith("Tweak:") for x in ls):
-        m = tw[0]
-        if [strip_no(x) for x in li[:m] + li[m + 1:]] != [strip_no(x) for x in ls]:
-            return None
-        ids.add("F-C12-tapscript-extra-line")
-        if label == "tapscript-empty-leaf":
-            # born in the ended state: nothing can be stepped, line 0 stays marked
-            if ti[0][4] == "1" and all(p[0] in ("i", "s-", "r-") for p in ti):
-                return ids | {"F-C12-tapscript-empty-leaf"}
-            return None
-        # every point: same command result, position and number; each voice marks the line with that number of ITS listing
-        for a, b in zip(ti, ts):
-            if len(ti) != len(ts) or a[0] != b[0] or a[2:5] != b[2:5]:
-                if a[0] == "s!" and b[0] == "s!" and a[3:5] == b[3:5]:
-                    ids.add("F-C12-step-after-failure")
-                    break
-                return None
-            if a[1] != b[1]:
-                return None
-            k = int(a[1])
-            if a[5] != (li[k] if 0 <= k < len(li) else "-") or b[5] != (ls[k] if 0 <= k < len(ls) else "-"):
-                return None
-        return ids
-    # 3. the P2SH section of a legacy spend announced from the last instruction of the scriptSig
-    if li != ls and LABEL_FINDING.get(label) == "F-C12-p2sh-announced-redeem" and "<<<~P2SH~script~>>>" in li:
-        a = li.index("<<<~P2SH~script~>>>")
-        if li[:a + 1] != ls[:a + 1]:
-            return None
-        ids.add("F-C12-p2sh-announced-redeem")
-        # the points up to the hand-over must agree; what follows runs a script that is not listed
-        for a_, b_ in zip(ti, ts):
-            if a_ != b_:
-                if int(a_[1]) > a or int(b_[1]) > a or a_[0] == "s!":
-                    return ids | ({"F-C12-step-after-failure"} if a_[0] == "s!" else set())
-                return None
-        return ids if len(ti) == len(ts) else None
-    if li != ls:
-        return None
-    # 4. failed steps: the position is left behind the failed instruction; what follows is not comparable
-    for k, (a, b) in enumerate(zip(ti, ts)):
-        if a == b:
-            continue
-        if a[0] == "s!" and b[0] == "s!" and a[1] == b[1] and a[3:] == b[3:]:
-            ids.add("F-C12-step-after-failure")
-            return ids
-        # 5. a scriptSig that does not decode: the hand-over is marked although the scriptSig is not finished
-        if LABEL_FINDING.get(label) == "F-C12-undecodable-scriptsig" and a[:5] == b[:5] and a[5] == "<<<~scriptPubKey~>>>" and b[5] == "-":
-            ids.add("F-C12-undecodable-scriptsig")
-            return ids
-        return None
-    if len(ti) != len(ts):
-        return None
-    return ids
+    # a tapscript session that is treated as P2SH: the commitment lines (Branch: … / CheckTapTweak: …) are missing from the listing
+    miss = [x for x in ls if strip_no(x).startswith("Branch:") or strip_no(x).startswith("CheckTapTweak:")]
+    if miss and not any(strip_no(x).startswith("CheckTapTweak:") for x in li) and "<<<~P2SH~script~>>>" in li:
+        if [strip_no(x) for x in ls if x not in miss][:len(ls) - len(miss)] == [strip_no(x) for x in li][:len(ls) - len(miss)]:
+            return {"F-C12-tapscript-p2sh-pattern-leaf"}
+    return None
 
 
 def repro_of(ctx, case):
@@ -530,8 +430,6 @@ def pty_session(binary, argv, cmds, timeout=20):
                 pts.append(("DIED", "-", "-", []))
                 break
             pts.append(point(tag, echo_of(tl) if performed else "-"))
-            if tag == "s!" and not cont:
-                break
         out = pts
     finally:
         try:
@@ -661,7 +559,7 @@ def run(ctx):
     spends = spend_cases(ctx, rnd, quick)
     mal = malformed_cases(ctx, rnd, quick)
     docs = doc_cases()
-    # the shortest reproducer of each known kind of defect first (each kind is reported once, with the first case that shows it)
+    # regression cases first: the shortest reproducers of the defects found in the first round (all repaired since)
     first = [(c, {"kind": "doc"}) for c in docs if c.split(" ")[2] == "s" * 24][-1:]                 # doc/txs/p2ts: taproot script path
     first.append((pline(bytes.fromhex("006955"), (), "csss", R.STD), {"label": "step-after-failure"}))
     first.append((pline(bytes.fromhex("8b51"), (bytes.fromhex("0102030405"),), "csr", R.STD), {"label": "rewind-after-exception"}))
